@@ -1,5 +1,6 @@
-"""C10 no orphans — supervisor part (application / node parts belong to another engine)."""
+"""C10 no orphans: supervisor part (Sup engine) + application / node part (App engine)."""
 from checks import supmachine as sm
+from checks import _c10_app
 
 
 def run(c):
@@ -7,6 +8,7 @@ def run(c):
     sm.machine(c, "machine", spec=["spec_no_orphans", "spec_noticed"], premise=["premise_terminated"],
                n_quick=1200, n_thorough=16000)
     sm.e2e(c, "c10", spec=["spec_e2e_no_orphans", "spec_e2e_prescribed"], premise=["premise_e2e_dead"], n_quick=30, n_thorough=500)
+    _c10_app.run(c)
     c.assumptions += sm.ASSUMPTIONS + [
         "terminations that bypass the machine (Node.Kill of the supervisor, failed Spawn during a restart) rely on the "
         "LinkParent exit propagation of node/ - checked end to end on the real node only, not a theorem of this engine",
